@@ -176,6 +176,42 @@ def run(ck, facts, tier):
             if e.get("k") == "struct" and (e.get("ty") or "").startswith("curves::curve::CurveDF<"):
                 ok = fn["fn"].endswith("CurveDF::<T, U>::try_new") or "Clone" in fn["fn"] or "Deserialize" in fn["fn"] or "::_::" in fn["fn"]
                 ck.check(r4, "literal@" + fn["fn"][:80], ok, "CurveDF constructed outside try_new (nodes may be unsorted)", "%s:%s" % (fn["file"], e.get("ln")), sample="allowed constructor")
-    ck.not_decided += ["index_left (hand-written recursive bisection over a list of arbitrary length): which interval a date falls in, incl. clamping, is not decided",
+    # ---------------- R11.5 interval search: recurrence conformance
+    r5 = ck.rule("R11.5", "index_left is the bisection recurrence: n = 1 aborts; n = 2 -> left count; otherwise split = (n-1) div 2, value <= list[split] -> search "
+                          "list[..=split] with the same count, else search list[split..] with count + split (the n = 3 && value == list[split] shortcut, which "
+                          "returns what the <= branch would, may be present). By induction on n this returns the interval whose right end is the first node on or "
+                          "after the value, clamped to the first and last interval", floor=2)
+    fn = UT + "index_left"
+    r = facts.fn(fn)
+    where = "%s:%d" % (r["file"], r["line"]) if r else None
+    L, V = Sym("param", "list"), Sym("param", "value")
+    for lcname, lcarg, lc in (("None", Sym("ctor", "None"), Poly.const(0)), ("Some", Sym("ctor", "Some", Poly.atom("lc")), Poly.atom("lc"))):
+        try:
+            got = cel.Ev(facts, hooks={fn: lambda ev_, vals, e: Sym("rec", *[cel.vkey(v) for v in vals])}).apply_fn(fn, [L, V, lcarg], 0)
+        except Unsupported as e:
+            ck.fail(r5, "index_left[left_count=%s]" % lcname, "rule could not be established (%s)" % e, where)
+            continue
+        import paths
+        n = Poly.atom(("len", cel.vkey(L), None))
+        split = Poly.atom(("idiv", (n - Poly.const(1)).key(), Poly.const(2).key()))
+        at_split = Poly.atom(("call", "index", (cel.vkey(L), split.key())))
+        rng_to = Rec("std::ops::RangeToInclusive", {"end": split})
+        rng_from = Rec("std::ops::RangeFrom", {"start": split})
+        sub = lambda rg: Poly.atom(("call", "index", (cel.vkey(L), cel.vkey(rg))))
+        rec1 = Sym("rec", cel.vkey(sub(rng_to)), cel.vkey(V), cel.vkey(Sym("ctor", "Some", lc)))
+        rec2 = Sym("rec", cel.vkey(sub(rng_from)), cel.vkey(V), cel.vkey(Sym("ctor", "Some", lc + split)))
+        nc = paths.norm_cond
+        arm = lambda k: nc(("arm", k, n.key()))
+        le = nc(("if", cel.vkey(Sym("cmp", "Le", cel.vkey(V), cel.vkey(at_split)))))
+        nle = (le[0], not le[1])
+        short = Sym("and", *sorted([cel.vkey(cel.cmp_sym("Eq", n, Poly.const(3))), cel.vkey(Sym("cmp", "Eq", cel.vkey(V), cel.vkey(at_split)))], key=repr))
+        sc, nsc = nc(("if", cel.vkey(short))), nc(("not", ("if", cel.vkey(short))))
+        base = {(frozenset([arm("1")]), cel.vkey(Sym("diverges", "panic"))), (frozenset([arm("2")]), lc.key())}
+        want_a = base | {(frozenset([arm("_"), sc]), lc.key()), (frozenset([arm("_"), nsc, le]), cel.vkey(rec1)), (frozenset([arm("_"), nsc, nle]), cel.vkey(rec2))}
+        want_b = base | {(frozenset([arm("_"), le]), cel.vkey(rec1)), (frozenset([arm("_"), nle]), cel.vkey(rec2))}
+        gotset = {(c, cel.vkey(v) if not (isinstance(v, Sym) and v.tag[0] == "diverges") else cel.vkey(Sym("diverges", "panic"))) for c, v in paths.flatten(got)}
+        ck.check(r5, "index_left[left_count=%s]" % lcname, gotset in (want_a, want_b), "index_left is not the bisection recurrence (a changed shortcut, split or branch would select a wrong interval for some list length)",
+                 where, detail="only in code: %s" % [(sorted(map(str, c))[:3], str(v)[:160]) for c, v in list(gotset - want_a)[:3]], sample="5 paths: abort / count / shortcut / left half / right half")
+    ck.not_decided += ["index_left is decided as conformance to the bisection recurrence; that the recurrence meets the interval specification is an induction argument stated in the rule, not mechanised",
                        "'lies between the nodes' is a numerical consequence of R11.1, not separately evaluated", "a deserialised CurveDF is not re-sorted (stored curves were sorted when saved)"]
     ck.trusted += ["lib/cel.py"]
